@@ -2,7 +2,7 @@
 Registries the gateway can reach from received messages satisfy C13's hypothesis `RegOK`, and the
 text layer's additional hypothesis `regIntsOK` (every stored integer is printable).
 
-A small Hoare logic over the handler monad `M`, generic in the registry invariant `I`
+A small Hoare logic over the handler monad `M`, generic in the registry invariant `I`, from `Lemmas/RegHoare.lean`
 (`HRetI I x Q`: `x` keeps `I` whatever its outcome, and a value it returns satisfies `Q`;
 `HRet` = the instance `I := RegOK`), one lemma per combinator, per handler body and
 per decorator, induction over the layers of a resolved handler chain, then over the history.
@@ -12,6 +12,7 @@ check in `hBattery` (F9), `decode`'s node-id range, `int()`'s digit limit, and
 `Gen.maxNodeId ≤ Gen.nodeIdMax`.
 -/
 import AioMySensors.Lemmas.Persist
+import AioMySensors.Lemmas.RegHoare
 import AioMySensors.Model.Gateway
 import AioMySensors.Model.Handlers
 import AioMySensors.Model.JsonText
@@ -184,21 +185,7 @@ theorem decode_msgOK (v : Ver) (line : Str) (m : Msg) (h : decode v line = some 
     · cases h
   · cases h
 
-/-! ### A small Hoare logic for a registry invariant
-
-The logic is generic in the invariant `I` of the registry: the combinators, everything that only writes
-to the transport or to the buffers, both decorators, the layers and the dispatch structure are proved
-once for every `I`; what depends on the invariant are the handlers that read or store a node record.
-Two instances: `RegOK` (`HRet` / `HPres`, C13's value-level hypothesis) and `regIntsOK` (the integers
-`json.dumps` has to print, further down). -/
-
-/-- `x` keeps the registry invariant `I` whatever its outcome, and a value it returns satisfies `Q`. -/
-structure HRetI (I : PDict Int Node → Prop) {α : Type} (x : M α) (Q : α → Prop) : Prop where
-  inv : ∀ w, I w.st.nodes → I (x w).2.st.nodes
-  ret : ∀ w a, I w.st.nodes → (x w).1 = .ok a → Q a
-
-/-- `x` keeps the invariant `I`. -/
-abbrev HPresI (I : PDict Int Node → Prop) {α : Type} (x : M α) : Prop := HRetI I x fun _ => True
+/-! ### The Hoare logic for a registry invariant (`Lemmas/RegHoare.lean`), instance `RegOK` -/
 
 /-- `x` keeps the registry loadable whatever its outcome, and a value it returns satisfies `Q`. -/
 abbrev HRet {α : Type} (x : M α) (Q : α → Prop) : Prop := HRetI RegOK x Q
@@ -208,196 +195,6 @@ abbrev HPres {α : Type} (x : M α) : Prop := HRet x fun _ => True
 
 section generic
 variable {I : PDict Int Node → Prop}
-
-theorem ret_pure {α : Type} {Q : α → Prop} (a : α) (h : Q a) : HRetI I (pure a) Q :=
-  ⟨fun _ hw => hw, fun _ _ _ he => by cases he; exact h⟩
-
-theorem ret_raise {α : Type} {Q : α → Prop} (e : Exn) : HRetI I (raise e : M α) Q :=
-  ⟨fun _ hw => hw, fun _ _ _ he => by cases he⟩
-
-theorem ret_weaken {α : Type} {Q R : α → Prop} {x : M α} (h : HRetI I x Q) (hq : ∀ a, Q a → R a) : HRetI I x R :=
-  ⟨h.inv, fun w a hw he => hq a (h.ret w a hw he)⟩
-
-theorem ret_bind {α β : Type} {Q : α → Prop} {R : β → Prop} {x : M α} {f : α → M β}
-    (hx : HRetI I x Q) (hf : ∀ a, Q a → HRetI I (f a) R) : HRetI I (bind x f) R := by
-  constructor
-  · intro w hw
-    have h1 := hx.inv w hw
-    have h2 := hx.ret w
-    simp only [M.bind]
-    cases hxw : x w with
-    | mk r w' =>
-      rw [hxw] at h1 h2
-      cases r with
-      | error e => exact h1
-      | ok a => exact (hf a (h2 a hw rfl)).inv w' h1
-  · intro w b hw
-    have h1 := hx.inv w hw
-    have h2 := hx.ret w
-    simp only [M.bind]
-    cases hxw : x w with
-    | mk r w' =>
-      rw [hxw] at h1 h2
-      cases r with
-      | error e => intro he; cases he
-      | ok a => exact (hf a (h2 a hw rfl)).ret w' b h1
-
-theorem ret_seq {β : Type} {R : β → Prop} {x : M Unit} {y : M β} (hx : HPresI I x) (hy : HRetI I y R) :
-    HRetI I (seq x y) R :=
-  ret_bind hx fun _ _ => hy
-
-theorem ret_getSt : HRetI I getSt fun st => I st.nodes :=
-  ⟨fun _ hw => hw, fun w a hw he => by cases he; exact hw⟩
-
-theorem pres_modifySt (f : St → St) (h : ∀ s, I s.nodes → I (f s).nodes) : HPresI I (modifySt f) :=
-  ⟨fun w hw => h w.st hw, fun _ _ _ _ => trivial⟩
-
-theorem pres_transportWrite (line : Str) : HPresI I (transportWrite line) := by
-  constructor
-  · intro w hw
-    simp only [M.transportWrite]
-    split <;> exact hw
-  · intros; trivial
-
-theorem ret_convertExn {α : Type} {Q : α → Prop} (classes : List PyExn) (e : LibErr) (x : Except PyExn α)
-    (h : ∀ a, x = .ok a → Q a) : HRetI I (convertExn classes e x) Q := by
-  cases x with
-  | ok a => exact ret_pure a (h a rfl)
-  | error c => simp only [convertExn]; split <;> exact ret_raise _
-
-theorem pres_tryFinally {α : Type} {x : M α} {fin : Except Exn α → M Unit} (hx : HPresI I x) (hf : ∀ r, HPresI I (fin r)) :
-    HPresI I (tryFinally x fin) := by
-  constructor
-  · intro w hw
-    simp only [M.tryFinally]
-    cases hxw : x w with
-    | mk r w' =>
-      have h1 := hx.inv w hw
-      rw [hxw] at h1
-      have h2 := (hf r).inv w' h1
-      simp only []
-      cases hfw : fin r w' with
-      | mk r' w'' =>
-        rw [hfw] at h2
-        cases r' with
-        | ok u => exact h2
-        | error e => exact h2
-  · intros; trivial
-
-theorem pres_tryCatch {α : Type} {x : M α} {h : Exn → Option (M α)} (hx : HPresI I x) (hh : ∀ e k, h e = some k → HPresI I k) :
-    HPresI I (tryCatch x h) := by
-  constructor
-  · intro w hw
-    simp only [M.tryCatch]
-    cases hxw : x w with
-    | mk r w' =>
-      have h1 := hx.inv w hw
-      rw [hxw] at h1
-      cases r with
-      | ok a => exact h1
-      | error e =>
-        simp only []
-        cases hk : h e with
-        | none => exact h1
-        | some k => exact (hh e k hk).inv w' h1
-  · intros; trivial
-
-theorem pres_pure {α : Type} (a : α) : HPresI I (pure a : M α) := ret_pure a trivial
-
-theorem pres_of_ret {α : Type} {Q : α → Prop} {x : M α} (h : HRetI I x Q) : HPresI I x := ret_weaken h fun _ _ => trivial
-
-/-! ### What does not touch the registry keeps every invariant -/
-
-theorem pres_gwSend (m : Msg) (b : Bool) : HPresI I (gwSend m b) := by
-  refine ret_bind ret_getSt fun st _ => ?_
-  split
-  · exact ret_raise _
-  · exact ret_raise _
-  · exact pres_transportWrite _
-  · split
-    · split
-      · exact pres_modifySt _ fun s hs => hs
-      · exact pres_transportWrite _
-    · exact pres_transportWrite _
-
-theorem pres_apiSend (obj : Option Msg) (b : Bool) : HPresI I (apiSend obj b) := by
-  cases obj with
-  | none => exact ret_raise _
-  | some m => exact pres_gwSend m b
-
-/-- Looking a node up changes nothing. -/
-theorem pres_requireNode (id : Int) : HPresI I (requireNode id) := by
-  refine ret_bind ret_getSt fun st _ => ?_
-  split
-  · exact pres_pure _
-  · exact ret_raise _
-
-theorem pres_flushList (l : List (Key × Msg)) : HPresI I (flushList l) := by
-  induction l with
-  | nil => exact pres_pure _
-  | cons p rest ih =>
-    obtain ⟨k, bm⟩ := p
-    refine ret_seq (pres_gwSend _ _) (ret_seq (pres_modifySt _ fun s hs => ?_) ih)
-    split <;> exact hs
-
-theorem pres_flush (m : Msg) : HPresI I (flush m) :=
-  ret_bind ret_getSt fun _ _ => ret_seq (pres_flushList _) (pres_pure _)
-
-theorem pres_hVersion (m : Msg) : HPresI I (hVersion m) :=
-  ret_bind (ret_convertExn (Q := fun _ => True) _ _ _ fun _ _ => trivial) fun _ _ =>
-    ret_seq (pres_modifySt _ fun _ hs => hs) (pres_pure _)
-
-theorem pres_heartbeatValue (classes : List PyExn) (m : Msg) : HPresI I (heartbeatValue classes m) :=
-  ret_convertExn _ _ _ fun _ _ => trivial
-
-theorem pres_hConfig (env : Env) (m : Msg) : HPresI I (hConfig env m) := ret_seq (pres_gwSend _ _) (pres_pure _)
-theorem pres_hTime (env : Env) (m : Msg) : HPresI I (hTime env m) := ret_seq (pres_gwSend _ _) (pres_pure _)
-theorem pres_hGatewayReady (m : Msg) : HPresI I (hGatewayReady m) := ret_seq (pres_gwSend _ _) (pres_pure _)
-theorem pres_hDiscoverResponse (m : Msg) : HPresI I (hDiscoverResponse m) :=
-  ret_bind (pres_requireNode _) fun _ _ => pres_pure _
-
-theorem pres_hReq (m : Msg) : HPresI I (hReq m) := by
-  refine ret_bind (pres_requireNode _) fun node _ => ?_
-  split
-  · exact ret_raise _
-  · split
-    · exact ret_seq (pres_gwSend _ _) (pres_pure _)
-    · exact pres_pure _
-
-theorem pres_wrapMissingPV (inner : Msg → M Msg) (m : Msg) (h : HPresI I (inner m)) : HPresI I (wrapMissingPV inner m) :=
-  pres_tryFinally h fun r => by
-    cases r <;> exact ret_bind ret_getSt fun _ _ => by
-      simp only []
-      split
-      · exact pres_gwSend _ _
-      · exact pres_pure _
-
-theorem pres_wrapMissingNC (inner : Msg → M Msg) (m : Msg) (h : HPresI I (inner m)) : HPresI I (wrapMissingNC inner m) := by
-  refine pres_tryCatch h fun e k hk => ?_
-  split at hk
-  · cases hk
-    refine ret_bind ret_getSt fun _ _ => ?_
-    split
-    · exact ret_raise _
-    · exact ret_seq (pres_gwSend _ _) (ret_seq (pres_modifySt _ fun _ hs => hs) (ret_raise _))
-  · cases hk
-
-theorem pres_runPre (b : Body) (m : Msg) : HPresI I (runPre b m) := by
-  cases b <;> simp only [runPre] <;> first
-    | exact ret_raise _
-    | (refine pres_modifySt _ fun s hs => ?_; split <;> exact hs)
-
-theorem pres_applyLayers (layers : List Layer) (base : Msg → M Msg) (m : Msg) (hb : HPresI I (base m)) :
-    HPresI I (applyLayers layers base m) := by
-  induction layers with
-  | nil => exact hb
-  | cons l ls ih =>
-    cases l with
-    | wrap w =>
-      cases w with
-      | missingPV => exact pres_wrapMissingPV _ m ih
-      | missingNC => exact pres_wrapMissingNC _ m ih
-    | pre b => exact ret_seq (pres_runPre b m) ih
 
 /-! ### The dispatch structure, for any invariant the leaf handlers and the presentation handler keep -/
 
